@@ -64,12 +64,26 @@ func rulePerChannelState(c *chk.Ctx) {
 				return
 			}
 			t := ir.FieldVar(fa).Type().String()
-			if t != "*bytes.Buffer" && t != "*bufio.Reader" && t != "*encoding/json.Decoder" {
-				return
+			helper := t == "*bytes.Buffer" || t == "*bufio.Reader" || t == "*encoding/json.Decoder"
+			switch ir.FieldVar(fa).Type().Underlying().(type) {
+			case *types.Slice, *types.Map:
+				// a buffer or table of the channel: mutable storage just the same
+			default:
+				if !helper {
+					return
+				}
 			}
-			n++
+			if helper {
+				n++
+			}
 			v := st.Val
+			if sl, isSl := v.(*ssa.Slice); isSl {
+				v = sl.X
+			}
 			_, fromOuter := v.(*ssa.FreeVar)
+			if gl := globalLoad(v); gl != nil {
+				fromOuter = true
+			}
 			if u, ok := v.(*ssa.UnOp); ok {
 				if _, isFV := u.X.(*ssa.FreeVar); isFV {
 					fromOuter = true
